@@ -217,7 +217,71 @@ theorem dump_noninterference (rs : List Bytes) (reqLine hostLine body : Bytes) (
   unfold dump
   rw [← dumpHeaders_erase rs hs, ← dumpHeaders_erase rs hs', h]
 
+/-! #### header names are case-insensitive: the full statement, and where it fails -/
+
+/-- **Full statement** for the dump: two requests that differ only in the values of credential headers —
+whatever the spelling of their names — produce the same dump. -/
+def dump_ci_full (rs : List Bytes) : Prop :=
+  ∀ (reqLine hostLine body : Bytes) (hs hs' : List Header),
+    eraseSecretsCI rs hs = eraseSecretsCI rs hs' →
+    dump rs reqLine hostLine hs body = dump rs reqLine hostLine hs' body
+
+theorem eraseCI_eq_erase (rs : List Bytes) (hs : List Header) (hc : keysCanonical rs hs = true) :
+    eraseSecretsCI rs hs = eraseSecrets rs hs := by
+  unfold eraseSecretsCI eraseSecrets
+  apply List.map_congr_left
+  intro h hh
+  have := (List.all_eq_true.mp hc) h hh
+  have hl : ∀ r ∈ rs, r = h.1 → listedCI rs h.1 = true := by
+    intro r hr e
+    unfold listedCI
+    exact List.any_eq_true.mpr ⟨r, hr, by simp [e]⟩
+  by_cases h1 : rs.contains h.1 = true
+  · have h2 : listedCI rs h.1 = true := by
+      have hm : h.1 ∈ rs := by simpa using h1
+      exact hl h.1 hm rfl
+    show (if listedCI rs h.1 = true then _ else _) = (if rs.contains h.1 = true then _ else _)
+    rw [if_pos h2, if_pos h1]
+  · have h2 : ¬ listedCI rs h.1 = true := by
+      intro hx
+      rw [hx] at this
+      exact h1 (by simpa using this)
+    show (if listedCI rs h.1 = true then _ else _) = (if rs.contains h.1 = true then _ else _)
+    rw [if_neg h2, if_neg h1]
+
+/-- **Under the decidable side condition** that credential headers are spelled as in the list (true for
+every header map built by net/http, which canonicalises), the full statement holds. -/
+theorem dump_ci_partial (rs : List Bytes) (reqLine hostLine body : Bytes) (hs hs' : List Header)
+    (hc : keysCanonical rs hs = true) (hc' : keysCanonical rs hs' = true)
+    (h : eraseSecretsCI rs hs = eraseSecretsCI rs hs') :
+    dump rs reqLine hostLine hs body = dump rs reqLine hostLine hs' body := by
+  apply dump_noninterference
+  rw [← eraseCI_eq_erase rs hs hc, ← eraseCI_eq_erase rs hs' hc', h]
+
+/-- Outside it the full statement is false for `dumpRequest`'s exact-match lookup: a header map with the
+key `cookie` (lower case, as a handler building a Request by hand could write it) is dumped in clear. -/
+theorem dump_ci_witness : ¬ dump_ci_full [asc ['C', 'o', 'o', 'k', 'i', 'e']] := by
+  intro h
+  have := h [] [] [] [(asc ['c', 'o', 'o', 'k', 'i', 'e'], [asc ['a']])] [(asc ['c', 'o', 'o', 'k', 'i', 'e'], [asc ['b']])]
+    (by decide)
+  revert this
+  decide
+
+/-- the executable spec accepts the ideal dump: nothing is reported as leaked when every credential value
+was replaced -/
+theorem leaked_ideal (rs : List Bytes) (reqLine hostLine : Bytes) (hs : List Header) (body : Bytes) :
+    leaked rs reqLine hostLine hs body (reqLine ++ hostLine ++ idealHeaders rs hs ++ crlf ++ body) = ([], []) := by
+  unfold leaked
+  simp only [Prod.mk.injEq, List.flatMap_eq_nil_iff, List.filter_eq_nil_iff]
+  constructor <;> intro h _ v _ <;> cases isInfixB v (reqLine ++ hostLine ++ idealHeaders rs hs ++ crlf ++ body) <;> simp
+
 /-! ### non-vacuity / samples (tests, not theorems) -/
+
+example : keysCanonical [asc ['C']] [(asc ['C'], [[1]]), (asc ['A'], [[2]])] = true
+    ∧ keysCanonical [asc ['C']] [(asc ['c'], [[1]])] = false := by decide
+example : leaked [asc ['C']] [] [] [(asc ['C'], [[], asc ['s', 'e', 'c']])] []
+    (asc ['C', ':', ' ', '\r', '\n', 'C', ':', ' ', 's', 'e', 'c', '\r', '\n', '\r', '\n']) = ([asc ['s', 'e', 'c']], []) := by decide
+
 
 #guard redact ⟨[asc ['s', '3'], []], ⟨some (asc ['p']), none⟩, [("a", ⟨none, some []⟩)]⟩
     = ⟨[placeholder, []], ⟨some placeholder, none⟩, [("a", ⟨none, some []⟩)]⟩
